@@ -41,6 +41,7 @@ def main():
         return 0
     spec = PROPS[prop]
     tier = "thorough" if args.tier == "thorough" else "quick"
+    os.environ["ABRA_VERIF_PROP"] = prop   # units may skip obligations that do not count for this property
     t0 = time.time()
     obligations, assumptions, trusted, cmds, notes = [], [], [], [], {}
     undecided_msgs = []
